@@ -955,6 +955,10 @@ class ExprMixin:
             if xv is None:
                 raise Unsupported("in on atom list")
             return MEM(container.t, xv)
+        if isinstance(container, VObj) and container.cls == "<opaque>":
+            # membership in an opaque mapping (env, env["references"]): value unknown, the test itself is pure
+            self.assumption_log.add("`in` on an opaque mapping: pure, outcome unconstrained")
+            return fresh("in_opaque", "bool")
         raise Unsupported(f"in on {container!r}")
 
     def cache_is_none(self, x):
